@@ -108,7 +108,7 @@ type Interface struct {
 	acceptRecvErrorConfig recvErrorConfig
 
 	// rebindCount is used to decide if an active tunnel should trigger a punch notification through a lighthouse
-	rebindCount int8
+	rebindCount atomic.Int32
 	version     string
 
 	conntrackCacheTimeout time.Duration
